@@ -659,7 +659,9 @@ def run(ctx):
 
     stats = {"cases": len(cases), "strings": len(strings), "by_position": {}, "by_label": {},
              "accepted": 0, "rejected": 0, "unreadable_after_accept": 0, "token_checks": 0,
-             "needs_escape": 0, "non_ascii": 0, "over_255_bytes": 0}
+             "needs_escape": 0, "non_ascii": 0, "over_255_bytes": 0,
+             # the repaired classes (d88c1da): blank / inventory.json / inventory.json.* content directories, by outcome
+             "cdir_blank_or_inventory_name": {"refused": 0, "accepted": 0}, "cdir_other": {"refused": 0, "accepted": 0}}
     for c, value, (msgs, key) in zip(cases, res, metas):
         o = obs[c["idx"]]
         pos, s = c["pos"], c["s"]
@@ -676,6 +678,9 @@ def run(ctx):
             stats["non_ascii"] += 1
         if len(s.encode("utf-8")) > 255:
             stats["over_255_bytes"] += 1
+        if pos == "cdir":
+            grp = "cdir_blank_or_inventory_name" if (s == "" or s == "inventory.json" or s.startswith("inventory.json.")) else "cdir_other"
+            stats[grp]["accepted" if o.get("new_ok") else "refused"] += 1
         short = s if len(s) <= 40 else s[:40] + "...(%d chars)" % len(s)
         ctx.count((pos, s), nontrivial=True,
                   sample={"position": pos, "string": short, "steps": o["steps"], "model_checks": checks, "known_flags": flags})
